@@ -30,6 +30,7 @@ type ob struct {
 type universe struct {
 	set     *Set
 	refs    []blob.Ref // every blob of the set + one ref nobody delivers
+	rnames  []string
 	names   *strings.Replacer
 	attrs   []string
 	vals    []string
@@ -37,6 +38,8 @@ type universe struct {
 	tnames  []string
 	signers []struct{ id, name string } // signer filters (GPG key ids)
 	srefs   []hs.Blob                   // public key blobs
+
+	argCache []ob // method + argument text of every battery position (filled by the first observe)
 }
 
 func newUniverse(s *Set) *universe {
@@ -52,6 +55,9 @@ func newUniverse(s *Set) *universe {
 	rep = append(rep, A.Pub.Ref.String(), "<"+A.Pub.Name+">", B.Pub.Ref.String(), "<"+B.Pub.Name+">",
 		A.KeyID, "<keyA>", B.KeyID, "<keyB>")
 	u.names = strings.NewReplacer(rep...)
+	for _, br := range u.refs {
+		u.rnames = append(u.rnames, u.names.Replace(br.String()))
+	}
 	u.attrs = append(append([]string(nil), s.Attrs...), "noSuchAttr")
 	u.vals = append(append([]string(nil), s.Vals...), "noSuchValue")
 	u.times = []time.Time{{}, world.T(0)}
@@ -66,6 +72,23 @@ func newUniverse(s *Set) *universe {
 }
 
 func (u *universe) name(br blob.Ref) string { return u.names.Replace(br.String()) }
+
+func valsStr(v []string) string {
+	if len(v) == 0 {
+		return "()"
+	}
+	return "(" + strings.Join(v, "\x1f") + ")"
+}
+
+// engineErr marks a harness problem (never a violation).
+type engineErr struct{ error }
+
+func bstr(b bool) string {
+	if b {
+		return "true"
+	}
+	return "false"
+}
 
 func errStr(err error) string {
 	switch {
@@ -151,27 +174,37 @@ func pathsStr(ps []*camtypes.Path, err error) string {
 // answers in a fixed order. All values are canonical strings (sets sorted
 // where the API promises no order).
 func observe(u *universe, x *index.Index, c *index.Corpus) []ob {
-	out := make([]ob, 0, 4096)
-	add := func(m, a, v string) { out = append(out, ob{m, a, v}) }
+	out := make([]ob, 0, len(u.argCache)+16)
+	// The battery is a fixed sequence of calls: the argument texts are
+	// formatted once per universe and reused by position.
+	cached := u.argCache
+	add := func(m, v, format string, args ...any) {
+		i := len(out)
+		if i < len(cached) && cached[i].M == m {
+			out = append(out, ob{m, cached[i].A, v})
+			return
+		}
+		out = append(out, ob{m, fmt.Sprintf(format, args...), v})
+	}
 	x.RLock()
 	defer x.RUnlock()
 
-	for _, br := range u.refs {
-		rn := u.name(br)
+	for ri, br := range u.refs {
+		rn := u.rnames[ri]
 		bm, err := x.GetBlobMeta(ctxbg, br)
 		if err != nil {
-			add("Index.GetBlobMeta", rn, errStr(err))
+			add("Index.GetBlobMeta", errStr(err), "%s", rn)
 		} else {
-			add("Index.GetBlobMeta", rn, metaStr(bm))
+			add("Index.GetBlobMeta", metaStr(bm), "%s", rn)
 		}
 		bm, err = c.GetBlobMeta(ctxbg, br)
 		if err != nil {
-			add("Corpus.GetBlobMeta", rn, errStr(err))
+			add("Corpus.GetBlobMeta", errStr(err), "%s", rn)
 		} else {
-			add("Corpus.GetBlobMeta", rn, metaStr(bm))
+			add("Corpus.GetBlobMeta", metaStr(bm), "%s", rn)
 		}
-		add("Index.IsDeleted", rn, fmt.Sprint(x.IsDeleted(br)))
-		add("Corpus.IsDeleted", rn, fmt.Sprint(c.IsDeleted(br)))
+		add("Index.IsDeleted", bstr(x.IsDeleted(br)), "%s", rn)
+		add("Corpus.IsDeleted", bstr(c.IsDeleted(br)), "%s", rn)
 
 		for _, sg := range u.signers {
 			for ai := -1; ai < len(u.attrs); ai++ {
@@ -179,31 +212,29 @@ func observe(u *universe, x *index.Index, c *index.Corpus) []ob {
 				if ai >= 0 {
 					attr = u.attrs[ai]
 				}
-				args := fmt.Sprintf("%s signer=%s attr=%q", rn, sg.name, attr)
-				add("Index.AppendClaims", args, claimsStr(x.AppendClaims(ctxbg, nil, br, sg.id, attr)))
-				add("Corpus.AppendClaims", args, claimsStr(c.AppendClaims(ctxbg, nil, br, sg.id, attr)))
+				add("Index.AppendClaims", claimsStr(x.AppendClaims(ctxbg, nil, br, sg.id, attr)), "%s signer=%s attr=%q", rn, sg.name, attr)
+				add("Corpus.AppendClaims", claimsStr(c.AppendClaims(ctxbg, nil, br, sg.id, attr)), "%s signer=%s attr=%q", rn, sg.name, attr)
 			}
 		}
 		for _, attr := range u.attrs {
 			for ti, at := range u.times {
 				for _, sg := range u.signers {
-					args := fmt.Sprintf("%s %q at=%s signer=%s", rn, attr, u.tnames[ti], sg.name)
-					add("Corpus.PermanodeAttrValue", args, fmt.Sprintf("%q", c.PermanodeAttrValue(br, attr, at, sg.id)))
-					add("Corpus.AppendPermanodeAttrValues", args, fmt.Sprintf("%q", c.AppendPermanodeAttrValues(nil, br, attr, at, sg.id)))
+					add("Corpus.PermanodeAttrValue", c.PermanodeAttrValue(br, attr, at, sg.id), "%s %q at=%s signer=%s", rn, attr, u.tnames[ti], sg.name)
+					add("Corpus.AppendPermanodeAttrValues", valsStr(c.AppendPermanodeAttrValues(nil, br, attr, at, sg.id)), "%s %q at=%s signer=%s", rn, attr, u.tnames[ti], sg.name)
 				}
 				for _, val := range u.vals {
-					add("Corpus.PermanodeHasAttrValue", fmt.Sprintf("%s at=%s %q=%q", rn, u.tnames[ti], attr, val), fmt.Sprint(c.PermanodeHasAttrValue(br, at, attr, val)))
+					add("Corpus.PermanodeHasAttrValue", bstr(c.PermanodeHasAttrValue(br, at, attr, val)), "%s at=%s %q=%q", rn, u.tnames[ti], attr, val)
 				}
 			}
 		}
-		add("Corpus.PermanodeModtime", rn, tstr(c.PermanodeModtime(br)))
-		add("Corpus.PermanodeAnyTime", rn, tstr(c.PermanodeAnyTime(br)))
-		add("Corpus.PermanodeTime", rn, tstr(c.PermanodeTime(br)))
+		add("Corpus.PermanodeModtime", tstr(c.PermanodeModtime(br)), "%s", rn)
+		add("Corpus.PermanodeAnyTime", tstr(c.PermanodeAnyTime(br)), "%s", rn)
+		add("Corpus.PermanodeTime", tstr(c.PermanodeTime(br)), "%s", rn)
 
-		add("Index.GetFileInfo", rn, fileInfoStr(x.GetFileInfo(ctxbg, br)))
-		add("Corpus.GetFileInfo", rn, fileInfoStr(c.GetFileInfo(ctxbg, br)))
-		add("Corpus.GetDirChildren", rn, refSet(c.GetDirChildren(ctxbg, br)))
-		add("Corpus.GetParentDirs", rn, refSet(c.GetParentDirs(ctxbg, br)))
+		add("Index.GetFileInfo", fileInfoStr(x.GetFileInfo(ctxbg, br)), "%s", rn)
+		add("Corpus.GetFileInfo", fileInfoStr(c.GetFileInfo(ctxbg, br)), "%s", rn)
+		add("Corpus.GetDirChildren", refSet(c.GetDirChildren(ctxbg, br)), "%s", rn)
+		add("Corpus.GetParentDirs", refSet(c.GetParentDirs(ctxbg, br)), "%s", rn)
 		{
 			ch := make(chan blob.Ref, 64)
 			err := x.GetDirMembers(ctxbg, br, ch, 0)
@@ -212,38 +243,39 @@ func observe(u *universe, x *index.Index, c *index.Corpus) []ob {
 				s = append(s, m.String())
 			}
 			sort.Strings(s)
-			add("Index.GetDirMembers", rn, errStr(err)+strings.Join(s, " "))
+			add("Index.GetDirMembers", errStr(err)+strings.Join(s, " "), "%s", rn)
 		}
 		wr, ok := c.GetWholeRef(ctxbg, br)
-		add("Corpus.GetWholeRef", rn, fmt.Sprintf("%v %v", wr, ok))
+		add("Corpus.GetWholeRef", wr.String()+" "+bstr(ok), "%s", rn)
 		if ii, err := x.GetImageInfo(ctxbg, br); err != nil {
-			add("Index.GetImageInfo", rn, errStr(err))
+			add("Index.GetImageInfo", errStr(err), "%s", rn)
 		} else {
-			add("Index.GetImageInfo", rn, fmt.Sprintf("%dx%d", ii.Width, ii.Height))
+			add("Index.GetImageInfo", fmt.Sprintf("%dx%d", ii.Width, ii.Height), "%s", rn)
 		}
 		if tags, err := x.GetMediaTags(ctxbg, br); err != nil {
-			add("Index.GetMediaTags", rn, errStr(err))
+			add("Index.GetMediaTags", errStr(err), "%s", rn)
 		} else {
 			var s []string
 			for k, v := range tags {
 				s = append(s, k+"="+v)
 			}
 			sort.Strings(s)
-			add("Index.GetMediaTags", rn, strings.Join(s, ","))
+			add("Index.GetMediaTags", strings.Join(s, ","), "%s", rn)
 		}
 		if loc, err := x.GetFileLocation(ctxbg, br); err != nil {
-			add("Index.GetFileLocation", rn, errStr(err))
+			add("Index.GetFileLocation", errStr(err), "%s", rn)
 		} else {
-			add("Index.GetFileLocation", rn, fmt.Sprintf("%.7f,%.7f", loc.Latitude, loc.Longitude))
+			add("Index.GetFileLocation", fmt.Sprintf("%.7f,%.7f", loc.Latitude, loc.Longitude), "%s", rn)
 		}
-		{
-			lat, long, ok := c.FileLatLong(br)
-			add("Corpus.FileLatLong", rn, fmt.Sprintf("%.7f,%.7f,%v", lat, long, ok))
+		if lat, long, ok := c.FileLatLong(br); ok {
+			add("Corpus.FileLatLong", fmt.Sprintf("%.7f,%.7f", lat, long), "%s", rn)
+		} else {
+			add("Corpus.FileLatLong", "none", "%s", rn)
 		}
 		id, err := x.KeyId(ctxbg, br)
-		add("Index.KeyId", rn, id+errStr(err))
+		add("Index.KeyId", id+errStr(err), "%s", rn)
 		id, err = c.KeyId(ctxbg, br)
-		add("Corpus.KeyId", rn, id+errStr(err))
+		add("Corpus.KeyId", id+errStr(err), "%s", rn)
 
 		{
 			edges, err := x.EdgesTo(br, nil)
@@ -252,19 +284,19 @@ func observe(u *universe, x *index.Index, c *index.Corpus) []ob {
 				s[i] = fmt.Sprintf("{from=%v type=%s title=%q to=%v via=%v}", e.From, e.FromType, e.FromTitle, e.To, e.BlobRef)
 			}
 			sort.Strings(s)
-			add("Index.EdgesTo", rn, errStr(err)+strings.Join(s, " "))
+			add("Index.EdgesTo", errStr(err)+strings.Join(s, " "), "%s", rn)
 		}
 		for _, sb := range u.srefs {
-			add("Index.PathsOfSignerTarget", fmt.Sprintf("signer=%s target=%s", sb.Name, rn), pathsStr(x.PathsOfSignerTarget(ctxbg, sb.Ref, br)))
+			add("Index.PathsOfSignerTarget", pathsStr(x.PathsOfSignerTarget(ctxbg, sb.Ref, br)), "signer=%s target=%s", sb.Name, rn)
 			for _, suf := range u.set.Suffixes {
-				add("Index.PathsLookup", fmt.Sprintf("signer=%s base=%s suffix=%q", sb.Name, rn, suf), pathsStr(x.PathsLookup(ctxbg, sb.Ref, br, suf)))
+				add("Index.PathsLookup", pathsStr(x.PathsLookup(ctxbg, sb.Ref, br, suf)), "signer=%s base=%s suffix=%q", sb.Name, rn, suf)
 				for ti, at := range u.times {
 					p, err := x.PathLookup(ctxbg, sb.Ref, br, suf, at)
 					v := errStr(err)
 					if err == nil {
 						v = pathsStr([]*camtypes.Path{p}, nil)
 					}
-					add("Index.PathLookup", fmt.Sprintf("signer=%s base=%s suffix=%q at=%s", sb.Name, rn, suf, u.tnames[ti]), v)
+					add("Index.PathLookup", v, "signer=%s base=%s suffix=%q at=%s", sb.Name, rn, suf, u.tnames[ti])
 				}
 			}
 		}
@@ -274,8 +306,8 @@ func observe(u *universe, x *index.Index, c *index.Corpus) []ob {
 			c.ForeachClaimBack(br, at, func(cl *camtypes.Claim) bool { sb = append(sb, claimStr(*cl)); return true })
 			sort.Strings(s) // "Iteration is in an undefined order"
 			sort.Strings(sb)
-			add("Corpus.ForeachClaim", fmt.Sprintf("%s at=%s", rn, u.tnames[ti]), strings.Join(s, " "))
-			add("Corpus.ForeachClaimBack", fmt.Sprintf("%s at=%s", rn, u.tnames[ti]), strings.Join(sb, " "))
+			add("Corpus.ForeachClaim", strings.Join(s, " "), "%s at=%s", rn, u.tnames[ti])
+			add("Corpus.ForeachClaimBack", strings.Join(sb, " "), "%s at=%s", rn, u.tnames[ti])
 		}
 		{
 			m, err := x.ExistingFileSchemas(br)
@@ -284,9 +316,13 @@ func observe(u *universe, x *index.Index, c *index.Corpus) []ob {
 				s = append(s, r.String())
 			}
 			sort.Strings(s)
-			add("Index.ExistingFileSchemas", rn, errStr(err)+strings.Join(s, " "))
+			add("Index.ExistingFileSchemas", errStr(err)+strings.Join(s, " "), "%s", rn)
 		}
-		c.EnumerateSingleBlob(func(bm camtypes.BlobMeta) bool { add("Corpus.EnumerateSingleBlob", rn, metaStr(bm)); return true }, br)
+		{
+			v := "none"
+			c.EnumerateSingleBlob(func(bm camtypes.BlobMeta) bool { v = metaStr(bm); return true }, br)
+			add("Corpus.EnumerateSingleBlob", v, "%s", rn)
+		}
 	}
 
 	// per signer: rows + deletes cache
@@ -297,17 +333,21 @@ func observe(u *universe, x *index.Index, c *index.Corpus) []ob {
 			}
 			for _, val := range u.vals {
 				pn, err := x.PermanodeOfSignerAttrValue(ctxbg, sb.Ref, attr, val)
-				add("Index.PermanodeOfSignerAttrValue", fmt.Sprintf("signer=%s %q=%q", sb.Name, attr, val), pn.String()+errStr(err))
+				add("Index.PermanodeOfSignerAttrValue", pn.String()+errStr(err), "signer=%s %q=%q", sb.Name, attr, val)
 			}
 			for ti, at := range u.times {
-				for _, q := range append([]string{""}, u.vals...) {
+				for qi := -1; qi < len(u.vals); qi++ {
+					q := ""
+					if qi >= 0 {
+						q = u.vals[qi]
+					}
 					ch := make(chan blob.Ref, 64)
 					err := x.SearchPermanodesWithAttr(ctxbg, ch, &camtypes.PermanodeByAttrRequest{Signer: sb.Ref, Attribute: attr, Query: q, At: at})
 					var s []string
 					for r := range ch {
 						s = append(s, r.String())
 					}
-					add("Index.SearchPermanodesWithAttr", fmt.Sprintf("signer=%s %q=%q at=%s", sb.Name, attr, q, u.tnames[ti]), errStr(err)+strings.Join(s, " "))
+					add("Index.SearchPermanodesWithAttr", errStr(err)+strings.Join(s, " "), "signer=%s %q=%q at=%s", sb.Name, attr, q, u.tnames[ti])
 				}
 			}
 		}
@@ -318,7 +358,7 @@ func observe(u *universe, x *index.Index, c *index.Corpus) []ob {
 			for r := range ch {
 				s = append(s, fmt.Sprintf("{%v by %v @%s}", r.Permanode, r.Signer, r.LastModTime.UTC().Format(time.RFC3339Nano)))
 			}
-			add("Index.GetRecentPermanodes", fmt.Sprintf("owner=%s before=%s", sb.Name, u.tnames[ti]), errStr(err)+strings.Join(s, " "))
+			add("Index.GetRecentPermanodes", errStr(err)+strings.Join(s, " "), "owner=%s before=%s", sb.Name, u.tnames[ti])
 		}
 	}
 
@@ -326,38 +366,44 @@ func observe(u *universe, x *index.Index, c *index.Corpus) []ob {
 	for _, newest := range []bool{true, false} {
 		var s []string
 		c.EnumeratePermanodesCreated(func(bm camtypes.BlobMeta) bool { s = append(s, metaStr(bm)); return true }, newest)
-		add("Corpus.EnumeratePermanodesCreated", fmt.Sprintf("newestFirst=%v", newest), strings.Join(s, " "))
+		add("Corpus.EnumeratePermanodesCreated", strings.Join(s, " "), "newestFirst=%v", newest)
 	}
 	{
 		var s []string
 		c.EnumeratePermanodesLastModified(func(bm camtypes.BlobMeta) bool { s = append(s, metaStr(bm)); return true })
-		add("Corpus.EnumeratePermanodesLastModified", "", strings.Join(s, " "))
+		add("Corpus.EnumeratePermanodesLastModified", strings.Join(s, " "), "")
 	}
 	{
 		var s []string
 		c.EnumerateBlobMeta(func(bm camtypes.BlobMeta) bool { s = append(s, metaStr(bm)); return true })
 		sort.Strings(s) // "undefined order"
-		add("Corpus.EnumerateBlobMeta", "", strings.Join(s, " "))
+		add("Corpus.EnumerateBlobMeta", strings.Join(s, " "), "")
 		s = nil
 		err := x.EnumerateBlobMeta(ctxbg, func(bm camtypes.BlobMeta) bool { s = append(s, metaStr(bm)); return true })
 		sort.Strings(s)
-		add("Index.EnumerateBlobMeta", "", errStr(err)+strings.Join(s, " "))
+		add("Index.EnumerateBlobMeta", errStr(err)+strings.Join(s, " "), "")
 	}
 	for _, ct := range []schema.CamliType{"", schema.TypePermanode, schema.TypeClaim, schema.TypeFile, schema.TypeDirectory, schema.TypeBytes, schema.TypeStaticSet} {
 		var s []string
 		c.EnumerateCamliBlobs(ct, func(bm camtypes.BlobMeta) bool { s = append(s, metaStr(bm)); return true })
 		sort.Strings(s)
-		add("Corpus.EnumerateCamliBlobs", fmt.Sprintf("type=%q", ct), strings.Join(s, " "))
+		add("Corpus.EnumerateCamliBlobs", strings.Join(s, " "), "type=%q", ct)
 	}
 	{
 		var s []string
 		c.EnumeratePermanodesByNodeTypes(func(bm camtypes.BlobMeta) bool { s = append(s, metaStr(bm)); return true }, []string{"", "foursquare.com:checkin"})
 		sort.Strings(s)
-		add("Corpus.EnumeratePermanodesByNodeTypes", "", strings.Join(s, " "))
+		add("Corpus.EnumeratePermanodesByNodeTypes", strings.Join(s, " "), "")
 	}
 	{
 		ok, err := x.HasLegacySHA1()
-		add("Index.HasLegacySHA1", "", fmt.Sprint(ok)+errStr(err))
+		add("Index.HasLegacySHA1", bstr(ok)+errStr(err), "")
+	}
+	if len(u.argCache) == 0 {
+		u.argCache = make([]ob, len(out))
+		for i, o := range out {
+			u.argCache[i] = ob{M: o.M, A: o.A}
+		}
 	}
 	return out
 }
@@ -371,38 +417,24 @@ type diff struct {
 
 func diffObs(live, other []ob) ([]diff, error) {
 	var out []diff
-	// the battery is a fixed sequence except for EnumerateSingleBlob (present only when the blob is known):
-	// align by (M, A) keys.
-	idx := make(map[string]int, len(other))
-	for i, o := range other {
-		idx[o.M+"\x00"+o.A] = i
+	if len(live) != len(other) {
+		return nil, engineErr{fmt.Errorf("battery length differs: %d vs %d", len(live), len(other))}
 	}
-	seen := make(map[string]bool, len(live))
-	for i, o := range live {
-		k := o.M + "\x00" + o.A
-		seen[k] = true
-		j, ok := idx[k]
-		if !ok {
-			out = append(out, diff{M: o.M, A: o.A, Live: o.V, Other: "(no answer)", i: i})
+	for i := range live {
+		if live[i].V == other[i].V {
 			continue
 		}
-		if other[j].V != o.V {
-			out = append(out, diff{M: o.M, A: o.A, Live: o.V, Other: other[j].V, i: i})
+		if live[i].M != other[i].M || live[i].A != other[i].A {
+			return nil, engineErr{fmt.Errorf("battery misaligned at %d: %s(%s) vs %s(%s)", i, live[i].M, live[i].A, other[i].M, other[i].A)}
 		}
-	}
-	for _, o := range other {
-		if !seen[o.M+"\x00"+o.A] {
-			out = append(out, diff{M: o.M, A: o.A, Live: "(no answer)", Other: o.V, i: -1})
-		}
+		out = append(out, diff{M: live[i].M, A: live[i].A, Live: live[i].V, Other: other[i].V, i: i})
 	}
 	return out, nil
 }
 
-func lookup(obs []ob, m, a string) (string, bool) {
-	for _, o := range obs {
-		if o.M == m && o.A == a {
-			return o.V, true
-		}
+func lookup(obs []ob, d diff) (string, bool) {
+	if d.i >= 0 && d.i < len(obs) && obs[d.i].M == d.M && obs[d.i].A == d.A {
+		return obs[d.i].V, true
 	}
 	return "", false
 }
